@@ -18,7 +18,7 @@ Not decided: promptness, TCP behaviour, retry-elsewhere (C06), all cut offsets a
 from ..inline import inline_view
 from ..mir import AnchorLost
 from ..inline import is_new_function
-from ..util import closure_family, df_of, fn_short, in_set, backward_slice, switch_on, switch_edges, yields, callers_keys, operand_path, path_last
+from ..util import truth_edges, dj_of, closure_family, df_of, fn_short, in_set, backward_slice, switch_on, switch_edges, yields, callers_keys, operand_path, path_last
 
 C = "scylla::network::connection::"
 
@@ -265,6 +265,18 @@ def r6(ctx, facts):
         st = df.state_in.get(us[0].bb) or {}
         cl = [k for k, v in st.items() if k[0] == "call" and in_set(v, {1}) and (b.term(k[1])[1].get("res") or "").startswith(b.path + "::{closure")]
         r.instance("republish-iff-removed", bool(cl), "update_shared_conns must be in the region where the removal closure returned true; state: " + df.fmt_state(st), us[0].span)
+        # ... and every path that removed an ACTIVE connection republishes (not only when the pool became empty)
+        dj = dj_of(b, facts)
+        rem_calls = [c for bb0, c in b.calls() if bb0 in b.live_blocks and (c.callee.get("res") or "").startswith(b.path + "::{closure")
+                     and any("conns" in _fields(b, a) for a in c.args if a[0] in ("c", "m"))]
+        ok_all, n_edges = True, 0
+        for c in rem_calls:
+            for sw, ttg, _ff in truth_edges(b, df, ("call", c.bb)):
+                n_edges += 1
+                if dj.feasible_reach_edge(sw, ttg, removed_nodes=[u.bb for u in us]) & set(b.exits):
+                    ok_all = False
+        r.instance("every-removal-republishes", n_edges > 0 and ok_all,
+                   "after a connection was removed from the active set, remove_connection can return without update_shared_conns(): the published list keeps handing out the dead connection until the next successful refill", us[0].span)
     # wait_for_error futures are registered for every accepted connection
     hb = facts.one(r"^scylla::network::connection_pool::PoolRefiller::handle_ready_connection$")
     w = hb.calls_to("connection_pool::wait_for_error")
